@@ -21,7 +21,8 @@ TECHNIQUE = ("differential runtime monitor of BIP32/49/84 nodes vs a from-the-BI
              "every spelling that yields the text form (hwif, as_text, repr/str, ku_output*, serialize) on every flavour and origin of node; "
              "one history over several related node objects (moved between networks with override_network, cached children, public copies) with "
              "refused calls and caller-owned buffers in between; one long run of more than 2^16 distinct children of ONE node judged by "
-             "incremental references (hash step per child, running point sum per block)")
+             "incremental references (hash step per child, running point sum per block); one cached text object (parseable_str) "
+             "offered to several networks' parsers before / between the owning network's parses")
 RULE = ("cases: (network, seed of 16..64 bytes incl. the BIP vectors, path of depth 0..8 (one of depth 255) with indices "
         "biased to 0,1,255,256,2^16,2^24-1,2^24,2^31-1, hardened or not, hardened steps spelled H/p/') -> all fields and both "
         "texts vs the reference, step-wise vs path derivation, commutation with public_copy on the non-hardened tail, "
@@ -58,7 +59,13 @@ RULE = ("cases: (network, seed of 16..64 bytes incl. the BIP vectors, path of de
         "kind 'longrun': (network, seed, base path, private or public-only parent read from its xpub, start index, odd step, pattern "
         "of (hardened, as_private)) -> request t = (start + (t // m) * step mod 2^31, pattern[t mod m]); 2^16 + 140 (thorough 2^17 + 140, "
         "private and public parent) distinct requests on one node, an earlier request repeated every 61 requests and three times per "
-        "request in the window [-6, +40] around each multiple of 2^16.")
+        "request in the window [-6, +40] around each multiple of 2^16. "
+        "kind 'shared': (owning network, flavour, half, synthetic extended key with boundary fields, the ONE text object handed to every call: "
+        "network.parseable_str_type(text) of the owning or of another network, the parseable_str class itself, a re-wrapped one, a plain "
+        "str as control) -> a history of 1..11 parse calls on that one object: entry points bip32/49/84, <bip>_prv/_pub, hierarchical_key, "
+        "secret, parse(text), private_key, public_key, address, wif, electrum_*, bip32_seed, payable of the owning network, of networks whose "
+        "version bytes for this flavour differ (half of the calls) and of any other network, ending with (and in 30% repeated after) a call "
+        "of the owning network through an entry point that reads this flavour and half; every such call is judged, a child of the last.")
 ASSUMPTIONS = [
     "vmon/refs/bip32.py is correct (self-tested on every run: BIP32 test vectors 1 and 2, every chain, both texts; "
     "N(CKDpriv) = CKDpub(N) on the vectors and random material; fixed-base table vs refs/ec.py ladder; Electrum v1 addresses)",
@@ -100,6 +107,13 @@ ASSUMPTIONS = [
     "caller-owned mutable arguments are only judged where the library accepts them (bytearray seed, bytearray Electrum master public "
     "key today): the argument is unchanged by the call, the same argument gives the same answer, the caller's later edits do not reach "
     "the node; a returned container is scribbled over only when it is a mutable one (bytearray / list / dict)",
+    "the round trip holds whatever was done before with the text OBJECT (histories are quantified): network.parseable_str_type is "
+    "public API for wrapping a text once and offering the same object to several parsers / networks (pycoin.cmds.ku.parse_key does); "
+    "after any parse calls on that object by any network, the owning network's parse.<bip>, <bip>_prv/_pub, hierarchical_key (private "
+    "texts: secret, parse(text) too) must hand out the node with the reference fields, the same text(s) and a right child of this "
+    "network's flavour; what the other networks and the other entry points make of the text is not judged (the statement does not say "
+    "that a foreign network refuses), nor is the identity or sharing of the node objects handed out; a tree without such a type makes "
+    "the run inconclusive, not failed",
     "long run: sum over a block of the public pairs handed out = point(sum of the reference child secrets) (public-only parent: "
     "point(sum I_L) + count * K_parent) stands for the per-child comparison of the public pair (errors cancelling in a sum of 512 "
     "points are not a realistic fault); a disagreeing block is re-judged child by child with the full reference, and if every child "
@@ -107,7 +121,8 @@ ASSUMPTIONS = [
 ]
 EXPLANATION = ("held = every observed secret exponent, public pair, chain code, depth, parent fingerprint, child number and "
                "xprv/xpub (yprv/zprv...) text equalled the reference; public derivation equalled the public half of private "
-               "derivation; hardened-from-public raised; parse(text) gave back every field")
+               "derivation; hardened-from-public raised; parse(text) gave back every field, also from one text object that other "
+               "networks' parsers and other entry points had been asked about before")
 TIMEOUT = {"quick": 900, "thorough": 3 * 3600}
 
 HARD = RB.HARD
@@ -148,6 +163,9 @@ def plan(tier, seed):
     else:
         for public in (False, True):
             shards.append({"kind": "longrun", "n": (1 << 17) + 140, "public": public, "label": "longrun-%s" % ("public" if public else "private")})
+    # one text object (network.parseable_str_type) offered to several networks' parsers before / between the owning network's parses
+    for i in range(1 if q else 3):       # appended last: the rng streams of the shards above do not move
+        shards.append({"kind": "shared", "n": 1000 if q else 6000, "label": "shared%d" % i})
     return shards
 
 
@@ -2222,8 +2240,187 @@ def run_objs(spec, rec, ctx):
 
 
 # ---------------------------------------------------------------------------------------------------------
+# kind "shared": ONE text object with a history.  pycoin hands out network.parseable_str_type (a str subclass that carries a
+# cache of what parsers learnt about the text) so that a caller can wrap a text once and offer the same object to several
+# parsers and several networks (pycoin.cmds.ku.parse_key does so).  The round trip through the text form is demanded "on every
+# network that defines them" whatever was done with the text object before: a history of parse calls (any entry point of any
+# network, the owning one included) is issued on the one object; every call of the OWNING network through an entry point that
+# reads this flavour and half must hand out the reference node.  What the other calls return is not judged.
 
-KINDS = {"derive": (run_derive, chk_derive), "nets": (run_nets, chk_synthetic), "spell": (run_spell, chk_spell),
+SHARED_ATTRS = ("bip32", "bip49", "bip84", "bip32_prv", "bip32_pub", "bip49_prv", "bip49_pub", "bip84_prv", "bip84_pub",
+                "hierarchical_key", "secret", "__call__", "private_key", "public_key", "address", "wif", "electrum_prv", "electrum_pub",
+                "bip32_seed", "payable")
+SHARED_CARRIERS = ("own", "own", "other", "other", "module", "rewrap", "str")
+
+
+def shared_judged_attrs(bip, private):
+    """parse entry points that the round trip is demanded through for a text of this flavour and half -> counter suffix"""
+    out = {bip: "bip", "%s_%s" % (bip, "prv" if private else "pub"): "split", "hierarchical_key": "hierarchical_key"}
+    if private:
+        out.update({"secret": "secret", "__call__": "call"})
+    return out
+
+
+def shared_carrier(ctx, how, code, other, text, rec):
+    """the one text object of the history; None when this tree has no such type"""
+    if how == "str":
+        return str(text)
+    net = ctx.nets[other if how == "other" and other in ctx.nets else code]
+    cls = None if how == "module" else getattr(net, "parseable_str_type", None)
+    if cls is None:
+        try:
+            from pycoin.networks.parseable_str import parseable_str as cls
+        except Exception:
+            return None
+    st, ps = observe(cls, text)
+    if st == "ok" and how == "rewrap":
+        st, ps = observe(cls, ps)
+    if st != "ok" or not isinstance(ps, str) or ps != text:
+        return None
+    return ps
+
+
+def chk_shared(case, rec, ctx):
+    code, bip, private = case["net"], case["bip"], case["private"]
+    if code not in ctx.nets or bip not in ctx.prefixes[code]:
+        return
+    k = case["secret"]
+    ref = RB.Node(k, RB.point(k), case["chain_code"], case["depth"], case["pfp"], case["child"])
+    if not private:
+        ref = ref.neuter()
+    ops = [tuple(o) for o in case["ops"]]
+    rec.case(("shared", code, bip, private, k, case["chain_code"], case["depth"], case["pfp"], case["child"], case["carrier"],
+              case.get("other"), tuple(ops), case["index"]))
+    prv, pub = ctx.prefixes[code][bip]
+    text = RB.to_text(ref, prv if private else pub, private)
+    pubtext = RB.to_text(ref, pub, False)
+    ps = shared_carrier(ctx, case["carrier"], code, case.get("other"), text, rec)
+    if ps is None:
+        rec.ev("shared.no_carrier")
+        return
+    rec.ev("shared.carrier." + ("str" if case["carrier"] == "str" else "parseable_str"))
+    judged = shared_judged_attrs(bip, private)
+    mine = (prv if private else pub)
+    seen_other = seen_differs = seen_same_net = False
+    last_judged = max([i for i, (c, a) in enumerate(ops) if c == code and a in judged] or [-1])
+    for pos, (c, attr) in enumerate(ops):
+        if c not in ctx.nets:
+            continue
+        fn = getattr(ctx.nets[c].parse, attr, None)
+        if fn is None:
+            rec.ev("shared.entry_absent")
+            continue
+        if not (c == code and attr in judged):
+            rec.ev("shared.probe")
+            observe(fn, ps)             # not judged: the statement does not say what another network / entry point makes of the text
+            if c == code:
+                seen_same_net = True
+                rec.ev("shared.probe.same_network")
+            else:
+                seen_other = True
+                theirs = ctx.prefixes[c].get(bip, (None, None))[0 if private else 1]
+                if theirs != mine:
+                    seen_differs = True
+                rec.ev("shared.probe.other_network.prefix_%s" % ("differs" if theirs != mine else "same"))
+            continue
+        hist = "after_other_network" if seen_other else "after_same_network" if seen_same_net else "first_use"
+        rec.ev("shared.judged")
+        rec.ev("shared.judged." + hist)
+        rec.ev("shared.judged." + bip)
+        rec.ev("shared.via." + judged[attr])
+        if seen_differs:
+            rec.ev("shared.judged.after_other_network.prefix_differs")
+        if case["carrier"] != "str":      # the object carries a cache: the histories the required counters speak about
+            rec.ev("shared.cached_object.judged." + hist)
+            if seen_differs:
+                rec.ev("shared.cached_object.judged.after_other_network.prefix_differs")
+        rec.ev({"bip": "parse." + bip, "split": "parse.%s.split" % bip, "hierarchical_key": "parse.hierarchical_key",
+                "secret": "parse.secret", "call": "parse.call"}[judged[attr]])
+
+        def V(mech, observed, expected):
+            rec.violation("%s.shared_text.%s.%s" % (bip, mech, hist), case, observed, expected)
+        st, back = observe(fn, ps)
+        if st != "ok" or back is None or not hasattr(back, "tree_depth"):
+            return V("parse_failed", {"op": pos, "entry": attr, "got": back if st != "ok" or back is None else repr(back)[:100]},
+                     "a node for %s" % text)
+        d = diff_fields(fields_of(back, rec), ref, private)
+        if d:
+            return V(d[0], {"op": pos, "entry": attr, "field": d[0], "got": d[1], "text": text}, d[2])
+        rec.ev("hwif")
+        st, t = observe(back.hwif, as_private=private)
+        if st != "ok" or t != text:
+            return V("text_changed", {"op": pos, "entry": attr, "got": t}, text)
+        if private:
+            st, t = observe(back.hwif, as_private=False)
+            if st != "ok" or t != pubtext:
+                return V("public_text_changed", {"op": pos, "entry": attr, "got": t}, pubtext)
+        seen_same_net = True
+        if pos != last_judged or case["depth"] >= 255:
+            continue
+        # a child of the node read last: the fields the standard defines and the text of this network and flavour
+        i = case["index"]
+        if not private:
+            i &= HARD - 1
+        try:
+            rch = RB.ckd_priv(ref, i) if private else RB.ckd_pub(ref, i)
+        except RB.Invalid:
+            continue
+        rec.ev("subkey")
+        rec.ev("shared.child")
+        st, ch = observe(back.subkey, i & (HARD - 1), i >= HARD)
+        if st != "ok":
+            return V("child_raises", {"op": pos, "entry": attr, "index": i, "got": ch}, "a node")
+        d = diff_fields(fields_of(ch, rec), rch, private)
+        if d:
+            return V("child." + d[0], {"op": pos, "entry": attr, "index": i, "field": d[0], "got": d[1]}, d[2])
+        exp = RB.to_text(rch, prv if private else pub, private)
+        st, t = observe(ch.hwif, as_private=private)
+        if st != "ok" or t != exp:
+            return V("child_text", {"op": pos, "entry": attr, "index": i, "got": t}, exp)
+
+
+def run_shared(spec, rec, ctx):
+    rng = shard_rng(spec["seed"], PROPERTY, spec["tier"], spec["shard"])
+    by_bip = {b: [c for c in ctx.codes if b in ctx.prefixes[c]] for b in BIPS}
+    for k in range(spec["n"]):
+        bip = rng.choice(["bip32", "bip32", "bip49", "bip84"])
+        if not by_bip[bip]:
+            bip = "bip32"
+        code = rng.choice(by_bip[bip])
+        if rng.random() < 0.5:
+            code = rng.choice([c for c in ("BTC", "XTN", "LTC") if c in by_bip[bip]] or by_bip[bip])
+        private = rng.random() < 0.5
+        mine = ctx.prefixes[code][bip][0 if private else 1]
+        differs = [c for c in ctx.codes if c != code and ctx.prefixes[c].get(bip, (None, None))[0 if private else 1] != mine]
+        others = [c for c in ctx.codes if c != code]
+        judged = sorted(shared_judged_attrs(bip, private))
+        hot = judged + [bip, "hierarchical_key", "secret", "__call__", "%s_prv" % bip, "%s_pub" % bip]
+        ops = []
+        for _ in range(rng.choice([0, 1, 1, 2, 2, 3, 5, 8])):
+            r = rng.random()
+            c = code if r < 0.25 or not others else rng.choice(differs) if r < 0.75 and differs else rng.choice(others)
+            ops.append([c, rng.choice(hot) if rng.random() < 0.7 else rng.choice(SHARED_ATTRS)])
+        ops.append([code, rng.choice(judged)])
+        if rng.random() < 0.3:       # and once more after the owning network has answered
+            ops.append([rng.choice(others) if others else code, rng.choice(hot)])
+            ops.append([code, rng.choice(judged)])
+        case = {"kind": "shared", "net": code, "bip": bip, "private": private,
+                "secret": rng.choice([1, RB.N - 1, rng.randrange(1, RB.N), rng.randrange(1, RB.N), rng.randrange(1, RB.N)]),
+                "chain_code": rng.choice([b"\0" * 32, b"\xff" * 32, bytes(rng.randrange(256) for _ in range(32)),
+                                          bytes(rng.randrange(256) for _ in range(32))]),
+                "depth": rng.choice([0, 1, 2, 3, 128, 254, 255, rng.randrange(256)]),
+                "pfp": rng.choice([b"\0\0\0\0", b"\xff\xff\xff\xff", bytes(rng.randrange(256) for _ in range(4))]),
+                "child": rng.choice([0, 1, HARD - 1, HARD, (1 << 32) - 1, rng.randrange(1 << 32)]),
+                "carrier": rng.choice(SHARED_CARRIERS), "other": rng.choice(others) if others else code,
+                "ops": ops, "index": gen_index(rng)}
+        chk_shared(case, rec, ctx)
+        if k < 2:
+            rec.sample({"kind": "shared", "net": code, "bip": bip, "private": private, "carrier": case["carrier"], "ops": ops[:8]})
+
+
+# ---------------------------------------------------------------------------------------------------------
+
+KINDS = {"shared": (run_shared, chk_shared), "derive": (run_derive, chk_derive), "nets": (run_nets, chk_synthetic), "spell": (run_spell, chk_spell),
          "cache": (run_cache, chk_cache), "electrum": (run_electrum, chk_electrum), "text": (run_text, chk_text),
          "vectors": (run_vectors, chk_vectors), "longrun": (run_longrun, chk_longrun), "objs": (run_objs, chk_objs)}
 REQUIRED = {
@@ -2253,6 +2450,12 @@ REQUIRED = {
              "refuse.seed", "refuse.subkeys", "refuse.children", "refuse.hwif", "refuse.electrum",
              "mutarg.seed_bytearray", "mutarg.electrum_mpk_bytearray", "mutarg.blob_bytearray", "mutarg.accepted", "mutret.looked",
              "hardened_from_public", "electrum.commutation"],
+    "shared": ["shared.judged", "shared.carrier.parseable_str", "shared.carrier.str", "shared.probe", "shared.probe.same_network",
+               "shared.probe.other_network.prefix_differs", "shared.probe.other_network.prefix_same",
+               "shared.cached_object.judged.first_use", "shared.cached_object.judged.after_same_network",
+               "shared.cached_object.judged.after_other_network", "shared.cached_object.judged.after_other_network.prefix_differs",
+               "shared.judged.bip32", "shared.judged.bip49", "shared.judged.bip84", "shared.via.bip", "shared.via.split",
+               "shared.via.hierarchical_key", "shared.via.secret", "shared.via.call", "shared.child"],
     "longrun": ["longrun.beyond_2^16", "longrun.block_sum", "longrun.full_reference", "longrun.repeat", "longrun.text", "longrun.requests"],
     "text": ["text.hwif", "text.as_text", "text.repr", "text.str", "text.ku_output", "text.serialize", "text.roundtrip", "deserialize",
              "parse.bip32", "parse.bip49", "parse.bip84", "parse.bip49.split", "parse.bip84.split", "parse.hierarchical_key",
